@@ -85,6 +85,10 @@ impl Modeled for f32 {
 		write!(out, "n{}", self.to_bits()).unwrap();
 	}
 	fn gen(g: &mut G) -> Self {
+		// now and then a special: signalling / quiet NaNs with payloads, infinities, negative zero
+		if g.rng.chance(1, 6) {
+			return f32::from_bits(*g.rng.pick(&[0x7f80_0001u32, 0x7fa0_0000, 0xff80_0001, 0x7fbf_ffff, 0x7fc0_0000, 0x7fc0_0001, 0xffc0_0000, 0x7f80_0000, 0xff80_0000, 0x8000_0000, 0x0000_0001]));
+		}
 		f32::from_bits(g.rng.biased(32) as u32)
 	}
 	fn min_len() -> usize {
@@ -99,6 +103,9 @@ impl Modeled for f64 {
 		write!(out, "n{}", self.to_bits()).unwrap();
 	}
 	fn gen(g: &mut G) -> Self {
+		if g.rng.chance(1, 6) {
+			return f64::from_bits(*g.rng.pick(&[0x7ff0_0000_0000_0001u64, 0x7ff4_0000_0000_0000, 0xfff0_0000_0000_0001, 0x7ff7_ffff_ffff_ffff, 0x7ff8_0000_0000_0000, 0x7ff8_0000_0000_0001, 0x7ff0_0000_0000_0000, 0xfff0_0000_0000_0000, 0x8000_0000_0000_0000, 1]));
+		}
 		f64::from_bits(g.rng.biased(64) as u64)
 	}
 	fn min_len() -> usize {
